@@ -1245,7 +1245,7 @@ def factory_probe(cls, fields, probe_kw, ctx):
 
 
 def run_variant(v, kws, ctx, probe_kw=None):
-    from typedpy import Serializer
+    from typedpy import Serializer, Deserializer, structure_to_schema
     res = {"src": variant_source(v)}
     try:
         cls, modname = define(v)
@@ -1271,6 +1271,7 @@ def run_variant(v, kws, ctx, probe_kw=None):
         res["ann_text"] = {f["name"]: ann.get(f["name"]) for f in v["fields"]
                            if f["mode"] == "ann" and isinstance(ann.get(f["name"]), str)}
         beh = []
+        n_deser = 0
         for kw in kws:
             try:
                 args = {k: dump.load_value(x, ctx) for k, x in kw}
@@ -1284,11 +1285,24 @@ def run_variant(v, kws, ctx, probe_kw=None):
                 continue
             r = {"ok": dump.canon(dump.dump_value(x, ctx))}
             try:
-                r["ser"] = json.dumps(Serializer(x).serialize(), sort_keys=True, default=repr)
+                doc = Serializer(x).serialize()
+                r["ser"] = json.dumps(doc, sort_keys=True, default=repr)
+                if n_deser < 4 and not ffields:     # ... and back: Deserializer(K) on what was serialized (products of a
+                    # stateful default factory differ from call to call by design: not compared there)
+                    n_deser += 1
+                    try:
+                        y = Deserializer(cls).deserialize(json.loads(r["ser"]))
+                        r["deser"] = dump.canon(dump.dump_value(y, ctx))
+                    except Exception as e:  # pylint: disable=broad-except
+                        r["deser"] = "raised " + err_name(e)
             except Exception as e:  # pylint: disable=broad-except
                 r["ser_err"] = type(e).__name__
             beh.append(r)
         res["beh"] = beh
+        try:
+            res["schema"] = json.dumps(structure_to_schema(cls), sort_keys=True, default=repr)
+        except Exception as e:  # pylint: disable=broad-except
+            res["schema"] = "raised " + err_name(e)
     finally:
         sys.modules.pop(modname, None)
     return res
@@ -1424,9 +1438,13 @@ def compare_variants(a, b):
                 ph = "error-class-differs"
             elif x.get("ok") != y.get("ok"):
                 ph = "normal-form-differs"
-            else:
+            elif x.get("ser") != y.get("ser") or x.get("ser_err") != y.get("ser_err"):
                 ph = "serialization-differs"
+            else:
+                ph = "deserialization-differs"
             return ph, f"kwargs #{j}: {json.dumps(x)[:200]} vs {json.dumps(y)[:200]}"
+    if a.get("schema") != b.get("schema"):
+        return "schema-differs", f"structure_to_schema: {str(a.get('schema'))[:220]} vs {str(b.get('schema'))[:220]}"
     if ("undumpable" in a) != ("undumpable" in b):      # same behaviour on the stream, but not the same kind of field
         return "field-kind-differs", f"{a.get('undumpable') or b.get('undumpable')}"
     return None
